@@ -218,7 +218,7 @@ func init() {
 			{Pkg: "bkl", Func: "HarnessC12_doc", Tiers: "qt", Covers: []string{"repeat.zero", "repeat.some", "repeat.listdoc", "repeat.override"},
 				Bound: "document-level $repeat: n with n a symbolic int in [-1,5] (thorough [-1,12]) (the loop bound is solver-decided), map and list documents, count supplied by an upper layer; body uses $repeat as value, in an interpolation and in a key"},
 			{Pkg: "bkl", Func: "HarnessC12_nested", Tiers: "qt", Covers: []string{"nested.list", "nested.map"},
-				Bound: "$repeat: n (n in [-1,4], thorough [-1,10]) inside a list entry and inside a map entry with an interpolated key"},
+				Bound: "$repeat: n (n in [-1,4], thorough [-1,10]) inside a list entry and inside a map entry with an interpolated key or a plain key (the last copy stays; no copy, no key)"},
 			{Pkg: "bkl", Func: "HarnessC12_named", Tiers: "qt", Covers: []string{"named.checked"},
 				Bound: "named counts x,y each in [-1,2] (quick) / [-1,4] plus optional third name (thorough): product, order, bindings"},
 			{Pkg: "bkl", Func: "HarnessC12_scopes", Tiers: "qt", Covers: []string{"scopes.doc", "scopes.list", "scopes.map"},
